@@ -110,7 +110,15 @@ COMMON_FIX = {"random_seed": NOTNONE, "time_keeper": NOTNONE, "self.time_keeper"
 RS_PARAM = "random_state"
 
 EFFS = ["GlobalNumpyRNG", "PyRandom", "HashOrderIter", "WallClock", "ModuleGlobalWrite", "ClassAttrWrite",
-        "CustomPickle", "ProcEntropy", "DynamicCode", "DynamicAttr"]
+        "CustomPickle", "ProcEntropy", "DynamicCode", "DynamicAttr", "UnseededGenerator", "UnknownRngReceiver",
+        "RandomStateOmitted"]
+# seed flow (naming-convention based): a generator is constructed from a seed-derived expression, and every draw goes
+# through a receiver that is generator-valued by construction or by name
+DRAW_METHODS = {"rand", "randn", "randint", "uniform", "normal", "choice", "shuffle", "permutation", "multinomial",
+                "random_sample", "binomial", "standard_normal", "integers", "beta", "gamma", "exponential",
+                "dirichlet", "multivariate_normal", "lognormal", "poisson"}
+GENERATOR_NAMES = ("random_state", "rng", "prng")
+MUTABLE_CTORS = {"dict", "list", "set", "defaultdict", "OrderedDict", "deque", "Counter"}
 
 NUMPY_MODS = {"numpy", "autograd.numpy"}
 NP_RANDOM_SAFE = {"RandomState", "Generator", "default_rng", "SeedSequence", "BitGenerator", "MT19937", "PCG64",
@@ -197,7 +205,28 @@ class Analysis:
         self.set_attrs = {}
         self._fam_cache = {}
         self.eff_tags = {}
+        self._clm_cache = {}
+        self.instance_assigned = {}   # class -> attribute names assigned as self.X = ... in some method
         self.TOP = self.node("T", "<top>")
+
+    def class_level_mutable(self, c, attr):
+        key = (c.qual, attr)
+        if key not in self._clm_cache:
+            res = False
+            for k in c.mro():
+                v = k.class_attrs.get(attr)
+                if v is not None and (isinstance(v, (ast.Dict, ast.List, ast.Set, ast.ListComp, ast.DictComp, ast.SetComp))
+                                      or (isinstance(v, ast.Call) and isinstance(v.func, (ast.Name, ast.Attribute))
+                                          and (v.func.id if isinstance(v.func, ast.Name) else v.func.attr) in MUTABLE_CTORS)):
+                    res = True
+                    break
+            if res:
+                fam = [k for k in c.mro()] + [d for d in self.classes.values() if any(k.qual == c.qual for k in d.mro())]
+                for k in fam:
+                    if attr in self.instance_assigned.get(k.qual, ()):
+                        res = False
+            self._clm_cache[key] = res
+        return self._clm_cache[key]
 
     def family_set_attrs(self, c):
         """attribute names assigned a set expression in c, an ancestor or a descendant of c"""
@@ -581,6 +610,7 @@ class Scope:
         self.locals = locals_         # names bound in the function (params, assignments, loop vars ...)
         self.local_syms = local_syms  # function-local imports / local classes -> sym
         self.set_vars = set()
+        self.gen_vars = set()         # locals bound to a generator by construction
         self.global_alias = set()     # locals bound to (parts of) class objects / module-level variables
         self.global_alias_kind = {}
         self.globals_decl = set()
@@ -678,6 +708,9 @@ class BodyVisitor:
                 A.edge(sc.node, f.fid, None, lits)
                 if called and f.did is not None and call is not None and call_omits_rs(f, call, method=False):
                     A.edge(sc.node, f.did, None, lits)
+                    if f.qual in A.rs_fallback:
+                        A.eff(sc.node, "RandomStateOmitted", lits, "%s call %s(...) without random_state" % (
+                            self.where(sc, n), f.node.name), tag="call %s() without random_state" % f.node.name)
                 if not called and f.did is not None:
                     A.edge(sc.node, f.did, None, lits)   # passed as a value: may be called without random_state
         elif k == "class":
@@ -716,6 +749,12 @@ class BodyVisitor:
                     if called and rest in NP_RANDOM_CTORS and call is not None and dotted.endswith(rest):
                         if ctor_unseeded(call):
                             A.eff(sc.node, "GlobalNumpyRNG", lits, "%s %s() without seed" % (w, dotted))
+                        else:
+                            why = self.seed_arg_problem(call, sc)
+                            if why:
+                                A.eff(sc.node, "UnseededGenerator", lits, "%s %s(%s): %s" % (
+                                    w, rest, ast.unparse(call.args[0] if call.args else call.keywords[0].value)[:40], why),
+                                    tag="%s(%s)" % (rest, ast.unparse(call.args[0] if call.args else call.keywords[0].value)[:40]))
                     return
                 A.eff(sc.node, "GlobalNumpyRNG", lits, "%s %s" % (w, dotted))
                 return
@@ -736,18 +775,69 @@ class BodyVisitor:
         if dotted in DYNAMIC_CODE_EXT:
             A.eff(sc.node, "DynamicCode", lits, "%s %s" % (w, dotted))
 
+    def seed_arg_problem(self, call, sc):
+        """None when the seed argument of a generator constructor is seed-derived: an int constant, a name /
+        attribute / call whose text mentions 'seed' (random_seed, master_seed, self.random_seed_generator()), where a
+        seed-named PARAMETER that may be None must be tested `is None` in the function; otherwise the reason"""
+        a = call.args[0] if call.args else call.keywords[0].value
+        if isinstance(a, ast.Constant) and isinstance(a.value, int):
+            return None
+        txt = ast.unparse(a)
+        if "seed" not in txt.lower():
+            return "seed argument is not derived from a seed-named value"
+        if isinstance(a, ast.Name) and sc.func is not None:
+            fa = sc.func.node.args
+            pos = fa.posonlyargs + fa.args
+            defaults = dict(zip([x.arg for x in pos[len(pos) - len(fa.defaults):]], fa.defaults))
+            defaults.update({x.arg: d for x, d in zip(fa.kwonlyargs, fa.kw_defaults) if d is not None})
+            d = defaults.get(a.id)
+            maybe_none = (isinstance(d, ast.Constant) and d.value is None)
+            for x in pos + fa.kwonlyargs:
+                if x.arg == a.id and x.annotation is not None and "Optional" in ast.unparse(x.annotation):
+                    maybe_none = True
+            if maybe_none and a.id not in self.fixed_keys:
+                tested = any(isinstance(t, ast.Compare) and isinstance(t.left, ast.Name) and t.left.id == a.id
+                             and isinstance(t.ops[0], (ast.Is, ast.IsNot)) for t in ast.walk(sc.func.node))
+                if not tested:
+                    return "parameter %s may be None (OS entropy) and is not tested" % a.id
+        return None
+
+    def generator_like(self, e, sc):
+        """the receiver of a draw is generator-valued by name (…random_state…, rng) or by construction (a local
+        bound to RandomState(..)/default_rng(..) or to another generator-like value)"""
+        if isinstance(e, ast.Name):
+            return any(g in e.id.lower() for g in GENERATOR_NAMES) or e.id in sc.gen_vars
+        if isinstance(e, ast.Attribute):
+            return any(g in e.attr.lower() for g in GENERATOR_NAMES)
+        if isinstance(e, ast.Call):
+            t = ast.unparse(e.func)
+            return t.endswith("RandomState") or t.endswith("default_rng") or self.generator_like(e.func, sc)
+        if isinstance(e, ast.Subscript):
+            return self.generator_like(e.value, sc)
+        return False
+
     def by_name(self, sc, attr, lits, n, call):
         """attribute `attr` accessed on an object of unknown class"""
         A = self.A
         if attr in A.methods_by_name:
             A.edge(sc.node, A.node("N", attr), None, lits)
             if call is not None:
+                hit = False
                 for (c, f) in A.methods_by_name[attr]:
                     if f.did is not None and call_omits_rs(f, call, method=True):
                         A.edge(sc.node, f.did, c.cid, lits)
+                        hit = hit or f.qual in A.rs_fallback
+                if hit:
+                    # the CALLER is the site: a call that leaves random_state of a callee with an ambient fallback
+                    # to its default (seed flow is interrupted here)
+                    A.eff(sc.node, "RandomStateOmitted", lits, "%s call .%s(...) without random_state" % (
+                        self.where(sc, n), attr), tag="call .%s() without random_state" % attr)
             else:
                 if any(f.did is not None for (_, f) in A.methods_by_name[attr]):
                     A.edge(sc.node, A.node("N", attr + "@rsnone"), None, lits)
+                    if any(f.qual in A.rs_fallback for (_, f) in A.methods_by_name[attr]):
+                        A.eff(sc.node, "RandomStateOmitted", lits, "%s bound method .%s mentioned (may be called without "
+                              "random_state)" % (self.where(sc, n), attr), tag="mention of .%s" % attr)
 
     # ---- expression / statement walk ----
     def visit(self, n, sc, lits, ctxflag=None):
@@ -799,6 +889,7 @@ class BodyVisitor:
     v_AsyncFunctionDef = v_FunctionDef
 
     def v_Lambda(self, n, sc, lits):
+        self.A.stats["lambda_sites"] = self.A.stats.get("lambda_sites", 0) + 1
         self.visit(n.args, sc, lits)
         self.visit(n.body, sc, lits)
 
@@ -914,11 +1005,27 @@ class BodyVisitor:
             self.v_Attribute(f, sc, lits, call=n)
             if f.attr in MUTATORS:
                 self.mutation(f.value, sc, lits, n, "." + f.attr + "()")
+            if f.attr in DRAW_METHODS:
+                base, parts = self.chain(f)
+                static = isinstance(base, ast.Name) and self.lookup(sc, base.id)[0] in ("mod", "ext", "class", "func")
+                ctor_recv = isinstance(f.value, ast.Call) and isinstance(f.value.func, ast.Name) and \
+                    self.lookup(sc, f.value.func.id)[0] == "class"     # Float(..).uniform(): a method of that class
+                if not static and not ctor_recv and not self.generator_like(f.value, sc):
+                    A.eff(sc.node, "UnknownRngReceiver", lits, "%s %s(...)" % (self.where(sc, n), ast.unparse(f)[:50]),
+                          tag=ast.unparse(f)[:50])
             if f.attr == "pop" and not n.args and self.is_set_expr(f.value, sc):
                 A.eff(sc.node, "HashOrderIter", lits, "%s set.pop()" % self.where(sc, n), tag="set.pop()")
         else:
             self.visit(f, sc, lits)
         fname = f.id if isinstance(f, ast.Name) else (f.attr if isinstance(f, ast.Attribute) else None)
+        if fname == "partial":
+            A.stats["functools_partial_sites"] = A.stats.get("functools_partial_sites", 0) + 1
+        if isinstance(f, ast.Attribute) and f.attr not in A.methods_by_name and isinstance(f.value, ast.Name):
+            b0 = f.value
+            if b0.id in ("self", "cls"):
+                # self.<attr>(...) where no class of the closure defines a method <attr>: a callable stored in an
+                # attribute (callback) -- resolved only at the place where the callable is created / mentioned
+                A.stats["calls_of_callable_valued_attributes"] = A.stats.get("calls_of_callable_valued_attributes", 0) + 1
         if fname in TRUNCATORS and any(self.consumes_set(a, sc) for a in n.args):
             A.eff(sc.node, "HashOrderIter", lits, "%s %s(...) takes a bounded part of an ordered view of a set" % (
                 self.where(sc, n), ast.unparse(f)[:40]), tag="order-truncating: %s" % ast.unparse(f)[:40])
@@ -1104,6 +1211,9 @@ class BodyVisitor:
             if value is not None:
                 if self.is_set_expr(value, sc):
                     sc.set_vars.add(t.id)
+                if isinstance(value, ast.Call) and self.generator_like(value, sc) or (
+                        isinstance(value, (ast.Name, ast.Attribute)) and self.generator_like(value, sc)):
+                    sc.gen_vars.add(t.id)
                 k = self.mentions_shared(value, sc)
                 if k is not None:
                     sc.global_alias.add(t.id)
@@ -1113,6 +1223,12 @@ class BodyVisitor:
                 self.A.eff(sc.node, "ModuleGlobalWrite", lits, "%s %s augmented" % (self.where(sc, st), t.id))
             return
         if isinstance(t, ast.Attribute):
+            # a generator-named attribute must be bound to a generator-valued expression
+            if value is not None and any(g in t.attr.lower() for g in GENERATOR_NAMES) and not (
+                    self.generator_like(value, sc) or (isinstance(value, ast.Constant) and value.value is None)):
+                self.A.eff(sc.node, "UnseededGenerator", lits, "%s %s bound to %s" % (
+                    self.where(sc, st), ast.unparse(t)[:40], ast.unparse(value)[:40]),
+                    tag="%s = %s" % (ast.unparse(t)[:40], ast.unparse(value)[:40]))
             # x.attr = v : property setters by name; class attribute / module attribute writes
             self.v_Attribute(t, sc, lits)
             self.mutation(t.value, sc, lits, st, ".%s = ..." % t.attr, attr_write=True)
@@ -1144,6 +1260,10 @@ class BodyVisitor:
                     return ("class", ast.unparse(e)[:60])
                 if base.id == "self" and parts and parts[0] == "__class__":
                     return ("class", ast.unparse(e)[:60])
+                if base.id == "self" and parts and sc.cls is not None and self.A.class_level_mutable(sc.cls, parts[0]):
+                    # class-level mutable object (dict/list/set created in the class body) never rebound per
+                    # instance: every instance, and every other scheduler of the process, shares it
+                    return ("class", ast.unparse(e)[:60] + " (class-level mutable)")
                 if base.id in sc.global_alias:
                     return ("alias", ast.unparse(e)[:60], base.id)
         if isinstance(base, ast.Call) and isinstance(base.func, ast.Name) and base.func.id == "type" and parts:
@@ -1181,7 +1301,8 @@ class BodyVisitor:
         if kind == "alias":
             kind = sc.global_alias_kind.get(r[2], "class")
         if kind == "class":
-            self.A.eff(sc.node, "ClassAttrWrite", lits, "%s %s%s" % (self.where(sc, st), text, how))
+            self.A.eff(sc.node, "ClassAttrWrite", lits, "%s %s%s" % (self.where(sc, st), text, how),
+                       tag=(text + how) if "class-level mutable" in text else "")
         else:
             self.A.eff(sc.node, "ModuleGlobalWrite", lits, "%s %s%s" % (self.where(sc, st), text, how))
 
@@ -1218,6 +1339,7 @@ def twin_scope(sc):
     s2 = Scope(sc.A, sc.mod, sc.func.did, sc.cls, sc.func, sc.locals, sc.local_syms)
     s2.set_vars, s2.global_alias, s2.globals_decl = sc.set_vars, sc.global_alias, sc.globals_decl
     s2.global_alias_kind = sc.global_alias_kind
+    s2.gen_vars = sc.gen_vars
     return s2
 
 
@@ -1306,9 +1428,19 @@ def analyze(repo):
     for _, fx in CONFIGS.values():
         fixed_keys.update(fx)
     # functions that have a random_state parameter get a twin
+    A.rs_fallback = set()
     for f in A.funcs.values():
         if rs_param_index(f) is not None:
             f.did = A.node("D", f.qual + "@rsnone")
+            # has the function an ambient fallback for random_state (default value / `if random_state is None` branch /
+            # `random_state or np.random`) or does it hand its own random_state on (fallback further down)?
+            txt_fallback = any(isinstance(n, ast.Attribute) and n.attr == "random" and isinstance(n.value, ast.Name)
+                               and n.value.id in ("np", "numpy", "anp", "onp") for n in ast.walk(f.node))
+            forwards = any(isinstance(n, ast.Call) and (any(isinstance(a, ast.Name) and a.id == RS_PARAM for a in n.args)
+                           or any(isinstance(k.value, ast.Name) and k.value.id == RS_PARAM for k in n.keywords))
+                           for n in ast.walk(f.node))
+            if txt_fallback or forwards:
+                A.rs_fallback.add(f.qual)
     # attribute names that hold sets: self.<name> assigned a set expression in a method of the class family
     probe = BodyVisitor(A, fixed_keys)
     for f in A.funcs.values():
@@ -1337,6 +1469,14 @@ def analyze(repo):
                     and isinstance(n.func.value, ast.Attribute) and isinstance(n.func.value.value, ast.Name) \
                     and n.func.value.value.id == "self":
                 A.set_attrs.setdefault(f.cls.qual, set()).add("[]" + n.func.value.attr)
+    for f in A.funcs.values():
+        if f.cls is not None:
+            for n in ast.walk(f.node):
+                if isinstance(n, (ast.Assign, ast.AnnAssign)):
+                    for t in (n.targets if isinstance(n, ast.Assign) else [n.target]):
+                        for x in ([t] if not isinstance(t, (ast.Tuple, ast.List)) else t.elts):
+                            if isinstance(x, ast.Attribute) and isinstance(x.value, ast.Name) and x.value.id == "self":
+                                A.instance_assigned.setdefault(f.cls.qual, set()).add(x.attr)
     V = BodyVisitor(A, fixed_keys)
     # --- function bodies
     for f in A.funcs.values():
@@ -1984,6 +2124,13 @@ def emit(A, out_path, sidecar_path=None):
                                                      and nd in reach(edges, roots[c], offs[c])) for c in cfgs},
                 dynamic_code_sites_in_closure=sum(1 for e in A.effs if e[1] == "DynamicCode"),
                 calls_through_callable_valued_locals=A.stats["unresolved_local_calls"],
+                calls_of_callable_valued_attributes=A.stats.get("calls_of_callable_valued_attributes", 0),
+                functools_partial_sites=A.stats.get("functools_partial_sites", 0),
+                lambda_sites=A.stats.get("lambda_sites", 0),
+                nested_function_definitions=sum(1 for f in A.funcs.values() for n in ast.walk(f.node)
+                                                if isinstance(n, (ast.FunctionDef, ast.AsyncFunctionDef)) and n is not f.node),
+                star_kwargs_call_sites=sum(1 for f in A.funcs.values() for n in ast.walk(f.node)
+                                           if isinstance(n, ast.Call) and any(k.arg is None for k in n.keywords)),
                 kwargs_calls_to_random_state_callees=AUDIT["kwargs_calls_to_random_state_callees"],
                 functions_with_random_state_parameter=sum(1 for f in A.funcs.values() if f.did is not None),
                 modules=len(A.mods), functions=len(A.funcs), classes=len(A.classes)),
@@ -2030,8 +2177,12 @@ BLIND_SPOTS = [
     "objects of classes that no reachable function mentions but that the user passes in (only classes of "
     "syne_tune.config_space and syne_tune.backend.trial_status are assumed to exist)",
     "C extensions and everything outside the syne_tune package (numpy, scipy, autograd, pandas internals)",
-    "class-level mutable attributes mutated through `self.attr` (no instance assignment) are not recognised as "
-    "ClassAttrWrite",
+    "class-level mutable attributes are recognised only when created by a literal / dict() / list() / set() / "
+    "defaultdict() in the class body and mutated as self.X[...] = / self.X.<mutator>() / cls.X...; aliases of "
+    "module-level objects are followed one assignment deep inside a function and through parameters of resolved "
+    "direct calls (not through attributes, returns or by-name dispatched calls)",
+    "seed flow is judged by NAMES (…seed…, …random_state…, rng): a generator stored under another name, or a "
+    "seed-named value that is not a seed, is not seen",
     "guard tests are evaluated by NAME (every variable called random_seed / searcher_name is taken to hold the "
     "fixed value)",
     "element types of sets are unknown: every ordered consumption of a set is flagged",
